@@ -781,6 +781,13 @@ Definition queue_found (s : state) (qn : string) : option queue :=
   match get_queue s qn with Some qu => if q_active qu then Some qu else None | None => None end.
 Definition locked (qu : queue) (c : N) : bool := q_excl qu && negb (q_owner qu =? c).
 
+(* binding.NewBinding: an x-match argument other than all / any is refused *)
+Definition bad_xmatch (args : list (string * string)) : bool :=
+  match alookup seqb "x-match"%string args with
+  | Some v => negb (seqb v "all"%string || seqb v "any"%string)
+  | None => false
+  end.
+
 Definition extype_of (t : string) : option extype :=
   if seqb t "direct"%string then Some ExDirect else if seqb t "fanout"%string then Some ExFanout
   else if seqb t "topic"%string then Some ExTopic else if seqb t "headers"%string then Some ExHeaders else None.
@@ -905,6 +912,7 @@ Definition handle_method (cfg : config) (fx : fixes) (s : state) (c h : N) (m : 
       | None => refuse s (ChanErr NotFound 50 20)
       | Some qu =>
         if locked qu c then refuse s (ChanErr ResourceLocked 50 20) else
+        if bad_xmatch args then refuse s (ChanErr PreconditionFailed 50 20) else
         let e := append_binding e {| b_queue := q; b_key := key; b_args := args |} in
         ok (s <| exchanges := aset seqb ex e (exchanges s) |>) (if nowait then [] else out1 c h SQBindOk)
       end
@@ -917,6 +925,7 @@ Definition handle_method (cfg : config) (fx : fixes) (s : state) (c h : N) (m : 
       | None => refuse s (ChanErr NotFound 50 50)
       | Some qu =>
         if locked qu c then refuse s (ChanErr ResourceLocked 50 50) else
+        if bad_xmatch args then refuse s (ChanErr PreconditionFailed 50 50) else
         let e := remove_binding e {| b_queue := q; b_key := key; b_args := args |} in
         ok (s <| exchanges := aset seqb ex e (exchanges s) |>) (out1 c h SQUnbindOk)
       end
